@@ -359,10 +359,10 @@ def run(ctx):
     refit = {pn: obyid[rc["id"]]["iters"] for pn, rc in refs.items()}
     moved = sum(1 for o in nl if o["iters"] != refit[byid[o["id"]]["prob"]])
     differ = sum(1 for o in nl if o["devE"] > 0 or o["devS"] > 0)
-    if moved < len(nl) // 3 or differ < len(nl) // 3:
+    if (moved < len(nl) // 3 or differ < len(nl) // 3) and not ctx.violations:
         raise Broken("the options hardly change the iterations of the nonlinear problems (%d of %d runs, %d with different digits)" % (moved, len(nl), differ))
     nfaulted = sum(1 for o in obs if o["fault"] != "none" and o["attempts"] > o["nsteps"])
-    if nfaulted < 20:
+    if nfaulted < 20 and not ctx.violations:
         raise Broken("fault injection did not produce sub-stepping (%d runs)" % nfaulted)
 
     # ---- trace validation of the logs of a subset of runs -------------------------------------------------------------
@@ -417,7 +417,7 @@ def run(ctx):
             ctx.violation(sig, what + " - %s, input %s/%s.mtest" % (sig_of(c), d, stem(c)), {"case": c, "trace": tf, "stopped_at": k, "event": at})
             open(ctx.path("violations.txt"), "a").write("%s  id=%d event %d %s\n" % (sig, c["id"], k, json.dumps(at)))
             chunk = chunk[badi + 1:]
-    if not {"Iter", "Act", "Hook", "Conv", "NoConv"} <= kinds:
+    if not {"Iter", "Act", "Hook", "Conv", "NoConv"} <= kinds and not ctx.violations:
         raise Broken("the validated logs do not contain every kind of event: %s" % sorted(kinds))
 
     nontrivial = sum(1 for c in cases if c["isref"] != 1)
